@@ -2,6 +2,8 @@ import OrsoVerif.Model.PyVal
 import OrsoVerif.Model.Estimators
 import OrsoVerif.Model.ProfileEst
 import OrsoVerif.Model.HistObj
+import OrsoVerif.Model.TableProf
+import OrsoVerif.Model.Profile
 import OrsoVerif.Drv.C13
 /-! Driver glue for C14: evaluate `count_at`, `quantile` and the profile estimators of the model on
 a histogram state given by the harness (the implementation's own bins and bounds). -/
@@ -27,7 +29,8 @@ def eval (c : Codec K) (floor : K → K) : List PyVal → Option (List PyVal)
     let mis ← c.dec missing
     pure [.list (xs.map fun x => encOpt c (countAt bins mn mx x)),
           .list (qs.map fun q => encOpt c (quantile floor bins mn mx q)),
-          .list (xs.map fun x => encOpt c (estimateAbove cnt mis bins mn mx x))]
+          .list (xs.map fun x => encOpt c (estimateAbove cnt mis bins mn mx x)),
+          .list (xs.map fun x => encOpt c (estimateBelow bins mn mx x))]
   | _ => none
 
 /-- A base profile as the implementation built it: `[count, missing, minimum, maximum, histogram]`; nothing
@@ -61,6 +64,13 @@ def seqStep (c : Codec K) (regs : List (Nat × EProf K)) : PyVal → Option (Lis
     match EProf.add pa pb with
     | .error e => pure (regs, errOut e)
     | .ok s => pure (setReg regs dst.toNat s, okOut)
+  | .list [.str "tadd", .int dst, .int a, .int b] => do
+    -- the same through one-column tables: `TableProfile.__add__` decides which column is the left operand of the column sum
+    let pa ← getReg regs a.toNat
+    let pb ← getReg regs b.toNat
+    match (if Gen.TableProf.sumLeftFirst then EProf.add pa pb else EProf.add pb pa) with
+    | .error e => pure (regs, errOut e)
+    | .ok s => pure (setReg regs dst.toNat s, okOut)
   | .list [.str "copy", .int dst, .int a] => do
     let pa ← getReg regs a.toNat
     pure (setReg regs dst.toNat pa, okOut)
@@ -78,6 +88,63 @@ def pseq (c : Codec K) : List PyVal → Option (List PyVal)
     let ps ← bases.mapM (decProf c)
     let regs := (List.range ps.length).zip ps
     let outs ← runSeq c regs ops
+    pure [.list outs]
+  | _ => none
+
+/-- The histogram a one-batch numeric profile keeps: the comprehension of `NumericProfiler` (`Profile.histogramOf`, slice /
+filter / kept pair regenerated from the source) over `numpy.histogram`'s counts and edges. -/
+def phist (c : Codec K) : List PyVal → Option (List PyVal)
+  | [.list counts, .list edges] => do
+    let cs ← counts.mapM fun | .int i => (if i < 0 then none else some i.toNat) | _ => none
+    let es ← edges.mapM c.dec
+    pure [.list ((Profile.histogramOf cs es).map fun p => .list [c.enc p.1, .int p.2])]
+  | _ => none
+
+/-- A freshly built table profile: `[[name, [count, missing, minimum, maximum, histogram]], …]`. -/
+def decTable (c : Codec K) : PyVal → Option (TProf K)
+  | .list cols => do
+    let cs ← cols.mapM fun
+      | .list [.str n, p] => (decProf c p).map fun q => (n, q)
+      | _ => none
+    pure ⟨cs⟩
+  | _ => none
+
+def getTab (regs : List (Nat × TProf K)) (i : Nat) : Option (TProf K) := (regs.find? (·.1 == i)).map (·.2)
+def setTab (regs : List (Nat × TProf K)) (i : Nat) (t : TProf K) : List (Nat × TProf K) := (i, t) :: regs.filter (·.1 != i)
+
+/-- One step of a sequence on **table** profile registers: `["tadd", dst, a, b]` stores `T[a] + T[b]` (`TableProfile.__add__`,
+`Model/TableProf.lean`) and answers the sum's column names with every column's `count` and `missing`; `["q", t, name, probes]`
+estimates below and above every probe on column `name` of table `t` (the column object keeps the `Distogram` it worked on). -/
+def tseqStep (c : Codec K) (regs : List (Nat × TProf K)) : PyVal → Option (List (Nat × TProf K) × PyVal)
+  | .list [.str "tadd", .int dst, .int a, .int b] => do
+    let ta ← getTab regs a.toNat
+    let tb ← getTab regs b.toNat
+    match TProf.add ta tb with
+    | .error e => pure (regs, errOut e)
+    | .ok s => pure (setTab regs dst.toNat s,
+        .list [.str "ok", .list (s.cols.map fun x => .str x.1), .list (s.cols.map fun x => c.enc x.2.count),
+               .list (s.cols.map fun x => c.enc x.2.missing)])
+  | .list [.str "q", .int t, .str n, .list probes] => do
+    let tp ← getTab regs t.toNat
+    let xs ← probes.mapM c.dec
+    let tq := tp.touch n
+    let p ← tq.column n
+    pure (setTab regs t.toNat tq,
+          .list [.str "q", .list (xs.map fun x => encOpt c (p.below x)), .list (xs.map fun x => encOpt c (p.above x))])
+  | _ => none
+
+def runTseq (c : Codec K) : List (Nat × TProf K) → List PyVal → Option (List PyVal)
+  | _, [] => some []
+  | regs, op :: ops => do
+    let (regs', out) ← tseqStep c regs op
+    let rest ← runTseq c regs' ops
+    pure (out :: rest)
+
+def tseq (c : Codec K) : List PyVal → Option (List PyVal)
+  | [.list bases, .list ops] => do
+    let ts ← bases.mapM (decTable c)
+    let regs := (List.range ts.length).zip ts
+    let outs ← runTseq c regs ops
     pure [.list outs]
   | _ => none
 
@@ -150,6 +217,9 @@ def handle (op : String) (args : List PyVal) : Option (List PyVal) :=
   | "eval", .str "q" :: rest => eval ratCodec (fun x => (x.floor : Rat)) rest
   | "pseq", .str "f" :: rest => pseq floatCodec rest
   | "pseq", .str "q" :: rest => pseq ratCodec rest
+  | "phist", .str "f" :: rest => phist floatCodec rest
+  | "tseq", .str "f" :: rest => tseq floatCodec rest
+  | "tseq", .str "q" :: rest => tseq ratCodec rest
   | "hseq", .str "f" :: rest => hseq floatCodec Float.floor rest
   | "hseq", .str "q" :: rest => hseq ratCodec (fun x => (x.floor : Rat)) rest
   | _, _ => none
